@@ -11,7 +11,7 @@ ROOT = os.path.dirname(os.path.dirname(os.path.abspath(__file__)))
 SPEC = os.path.join(ROOT, 'spec')
 BUILD = os.path.join(ROOT, 'build')
 OUT = os.path.join(ROOT, 'out')
-NCPU = min(16, os.cpu_count() or 4)
+NCPU = min(16, os.cpu_count() or 4, int(os.environ.get('VERIF_NCPU', '16')))
 ASAN_ENV = 'strict_string_checks=1:halt_on_error=0:detect_leaks=0:allocator_may_return_null=1:detect_stack_use_after_return=0:print_summary=0:max_malloc_fill_size=0'
 
 
